@@ -46,6 +46,9 @@ DONE = {
  "C18": ("property-based testing over histories with exhaustive enumeration of storage orders: all r! orders of the removed vertices for r <= 7 (sampled above), all permutations of small vertex arrays, random rotations of every plane triple, replayed clip histories (proptest, sharded; hook cell_clip = ConvexCell::clip_by_plane)",
          "Exploration with exhaustively enumerated sub-spaces: thousands of reachable cells (box + first K <= 12 candidates of the production iterator) x a further plane; about 10^6 (quick) permuted clips; for every cell with <= 7 removed vertices all storage orders of the removed set are executed.",
          "Trusted: canonical form = rotation-normalised cyclic plane triples; volume tolerance from the conditioning of the result. exhaustive only within the stated sub-space (orders of <= 7 removed vertices per generated cell).", "5 C18"),
+ "C20": ("property-based model testing: Space::knn against a brute-force sort with exact tie handling; bounding spheres against containment predicates and a brute-force minimum over all 2-, 3-, 4-point support sets (proptest, sharded; hooks space_knn, welzl, epos6, epos6_spheres)",
+         "Exploration: thousands of generated boxes (aspect to 2^4 quick / 2^6 thorough, offsets to 2^20 widths), grids of 1..16/40 cells per axis or one cell, particle sets n = 1..400/600 (uniform, clustered, exact lattices, thin slabs), k in {0, 1, n-1, any}; every particle's list compared rank by rank; Welzl minimality for n <= 14, containment for Welzl (n <= 60), Epos6 and Epos6 spheres-of-spheres.",
+         "Trusted: brute-force oracles of the harness. Welzl is not run on exact lattices (exactly collinear / co-spherical support sets are degenerate for an exact solver without perturbation); Welzl::bounding_sphere_of_spheres is unimplemented!() by design.", "5 C20"),
 }
 NOT_YET = "check under construction (work in progress; see DESIGN.md section 5)"
 ALL = ["C%02d" % i for i in range(1, 21)]
